@@ -35,6 +35,7 @@ pub trait EfiIter {
     fn dbg_(&self) -> String;
     fn nth_(&mut self, n: usize) -> Option<&'static multiboot2::EFIMemoryDesc>;
     fn count_(&self) -> usize;
+    fn last_(&self) -> Option<&'static multiboot2::EFIMemoryDesc>;
 }
 
 impl<T> EfiIter for T
@@ -61,6 +62,9 @@ where
     }
     fn count_(&self) -> usize {
         self.clone().count()
+    }
+    fn last_(&self) -> Option<&'static multiboot2::EFIMemoryDesc> {
+        self.clone().last()
     }
 }
 
